@@ -150,6 +150,18 @@ def check_store(ctx, fi, ev, tag, E, roots, vtag, preds):
   ctx.ob('C03.G1', fn, f'{tag}: select', True, '', ctx.loc(fi), sample=f'{kind}(pred, old, candidate) [{vtag}]')
   pp = parse_predicate(pred)
   preds.append(strip_casts(pred))
+  if pp.get('shape') != 'or':
+    # the ACCEPT form: `new if e < threshold else old`.  A strict `<` is false for a NaN error, so this one test is the
+    # negation of `isnan(e) | e >= threshold` (the reverse spelling `old if e >= threshold else new` is not: NaN passes)
+    raw = strip_casts(E.args[0]) if E.op in ('cond', 'ite') else (strip_casts(E.args[1][0]) if E.op == 'call' and E.args[1] else None)
+    acc = None
+    if raw is not None:
+      if raw.op == 'cmp' and len(raw.args) == 3 and raw.args[0] in ('<', '>'):
+        acc = (raw.args[1], raw.args[2]) if raw.args[0] == '<' else (raw.args[2], raw.args[1])
+      elif ext_name(raw) in ('jax.numpy.less', 'jax.numpy.greater') and len(raw.args[1]) == 2 and not raw.args[2]:
+        acc = tuple(raw.args[1]) if ext_name(raw).endswith('less') else (raw.args[1][1], raw.args[1][0])
+    if acc is not None:
+      pp = dict(shape='or', e_nan=strip_casts(acc[0]), e_cmp=strip_casts(acc[0]), e_casts=cast_targets(acc[0]), thr=strip_casts(acc[1]), strict=False)
   ok_shape = pp.get('shape') == 'or' and pp['e_nan'] is not None and pp['e_cmp'] is not None
   if not ok_shape:
     missing = []
